@@ -59,3 +59,38 @@ def replay_lines(c):
 def helper(impl, lines, env, jobs=None):
     """Run harness lines that have no model counterpart (helper queries / exploration)."""
     return run_lines(impl, lines, env=env, jobs=jobs)
+
+
+def scratch_module(c):
+    """Scratch Go module for building generated code: `replace github.com/VKCOM/tl => $VERIF_REPO`, go.sum copied from the
+    repository; GOFLAGS=-mod=mod is set only for go commands run inside this module."""
+    import shutil
+    sc = os.path.join(c.workdir, "scratch")
+    shutil.rmtree(sc, ignore_errors=True)
+    os.makedirs(sc)
+    gover = "1.24.0"
+    for l in open(os.path.join(REPO, "go.mod")):
+        if l.startswith("go "):
+            gover = l.split()[1]
+    req = []
+    inreq = False
+    for l in open(os.path.join(REPO, "go.mod")):
+        s = l.strip()
+        if s.startswith("require ("):
+            inreq = True
+            continue
+        if inreq and s == ")":
+            inreq = False
+            continue
+        if inreq and s:
+            req.append(s)
+        elif s.startswith("require "):
+            req.append(s[len("require "):])
+    with open(os.path.join(sc, "go.mod"), "w") as f:
+        f.write("module verif.local/h\n\ngo %s\n\nrequire github.com/VKCOM/tl v0.0.0\n\n" % gover)
+        if req:
+            f.write("require (\n" + "".join("\t%s\n" % r for r in req) + ")\n\n")
+        f.write("replace github.com/VKCOM/tl => %s\n" % REPO)
+    if os.path.exists(os.path.join(REPO, "go.sum")):
+        shutil.copy(os.path.join(REPO, "go.sum"), os.path.join(sc, "go.sum"))
+    return sc
